@@ -592,6 +592,9 @@ def run_mcp(desc):
                 else:
                     for m, l in zip(body["matches"], d["legs"]):
                         cnt["mcp_figures"] += 2
+                        from .c20 import explanation_figures
+                        for msg in explanation_figures(m.get("explanation", ""), l):
+                            vs.append({"clause": "explain-differs", "signature": "mcp:explanation-text-figure-differs", "detail": msg})
                         if fr(m["allowable_cost"]) != l["cost"] or fr(m["gain_or_loss"]) != l["gain"] or fr(m["quantity"]) != l["qty"]:
                             vs.append({"clause": "explain-differs", "signature": "mcp:explain-figure-not-shown-in-full",
                                        "detail": f"{d['ticker']} {d['date']} {l['rule']}: {m['allowable_cost']} vs {l['cost']}"})
